@@ -33,6 +33,8 @@ func runC12(c *Ctx, r *Report) {
 	c10R5(c, r, "C12.R13")                           // later handlers see the source address the header declares: ip_hash takes the client's address from the connection it is given, not from a socket further down
 	c15TablesFor(c, r, "C12.R14", "l4proxyprotocol") // who is trusted to send a header is what the Caddyfile says: all allow lines of the block add up
 	c01R4(c, r, "C12.R15")                           // later matchers see the stream behind the header: what is prefetched on the wrapped connection is kept in storage of its own (not in the pooled chunk that the next prefetch overwrites)
+	c12Placeholders(c, r, "C12.R16")
+	c12HeaderExamined(c, r, "C12.R17")
 	c02Router(c, r, "C12.R11")                       // routes after the handler are decided on the connection it handed on: verdicts taken on the raw connection before the header was stripped are asked again
 }
 
